@@ -244,6 +244,23 @@ def rule_reader_agrees(ctx, facts, rule, table):
                 ok = bool(via)
             ctx.check(ok, rule, p, g.span, "%s text is parsed as hexadecimal %s (the type and radix its Display writes)" % (ty, ity), "",
                       "parse calls: %s" % [g.term(b)["callee"] for b in ps], extra="reader")
+            # the text handed to the parser is the text received: nothing trims, slices or rewrites it on the way
+            # ("0000...0" must stay parseable: trimming the padding leaves "" for the id 0)
+            REWRITE = r"<impl str>::(trim\w*|strip_\w+|split\w*|rsplit\w*|get|get_unchecked|replace\w*|to_\w*case|chars|bytes|char_indices)$|" \
+                      r"Index(<.*>)?>?::index$|string::String::(truncate|remove|drain|replace_range|split_off|pop)$"
+            for b in ps:
+                src = prov.of_operand(g, g.term(b)["args"][0])
+                rew = sorted({v[1].rsplit("::", 1)[1] for o in src for v in o.via if v[0] == "call" and re.search(REWRITE, v[1])})
+                ctx.check(not rew, rule, p, g.loc(b), "the parser receives the text unchanged (no trimming / slicing before from_str_radix)", "",
+                          "the text passes through %s before it is parsed: some fixed-width form the writer emits (all zeros) no longer parses" % rew,
+                          extra="text-unchanged")
+            if "Deserialize" in p:
+                # an owned String (or a visitor) can be produced by every Deserializer; a borrowed &str cannot (readers,
+                # value trees, escaped JSON strings hand out transient text only)
+                borrowed = [g.term(b)["callee"] for b in g.calls_re(r"Deserialize<'de> for &'?\w* ?str>::deserialize$", cleanup=False)]
+                ctx.check(not borrowed, rule, p, g.span, "the id text is deserialised as owned text (String / visitor), not as a borrowed &str", "",
+                          "deserialises through %s: any Deserializer that cannot lend the text (from_reader, from_value, escapes) fails" % borrowed,
+                          extra="owned-text")
 
 
 SIGN_RECOGNISERS = r"is_ascii_hexdigit$|char::methods::<impl char>::(is_digit|to_digit|is_ascii_hexdigit)$|<impl u8>::is_ascii_hexdigit$|" \
